@@ -1,4 +1,5 @@
 import BigtoolsModel.Compat
+import BigtoolsModel.TextCodec
 import BigtoolsModel.Props.C01
 import BigtoolsModel.Props.C02
 /-! # C16 — command-line conversions round-trip records for any thread count and flag style
@@ -78,5 +79,12 @@ theorem restricted_output_is_the_range_query (o : BBI.WOpts) (cs : List BBI.Chro
       BBI.getIntervalF fuel (BBI.fileOf o cs).bytes (cs[j].name.map UInt8.ofNat) qs qe =
         .ok (cs[j].vals.filterMap (BBI.keepClip qs qe)) :=
   Props.C01.write_then_read_returns_the_input o cs h j hj qs qe
+
+/-- Text level: a canonical bedGraph line over natural-number fields (chromosome name without a tab) parses back
+    to the record it prints — decimal printing and parsing are mutually inverse. -/
+theorem bedgraph_line_text_roundtrip (r : TXT.Rec) (h : ∀ c ∈ r.chrom, c ≠ 9) : TXT.parseLine (TXT.printLine r) = some r :=
+  TXT.parse_print r h
+
+theorem decimal_roundtrip (n : Nat) : TXT.parseNat (TXT.digits n) = some n := TXT.parseNat_digits n
 
 end Props.C16
